@@ -19,7 +19,7 @@
 (* the outcome of each call: the S2C generator (the invariant is checked in the same run).     *)
 EXTENDS Tree, TLC, Json
 CONSTANTS Cached,   \* FALSE: every call flattens u afresh (the code today); TRUE: memo keyed on the identity of u
-          Size,     \* "std" | "wide"
+          Size,     \* "std": histories call ; edit ; call | "wide": call ; edit ; edit ; call
           Hist      \* TRUE: carry and print the history (generator); FALSE: model checking on the heap alone
 
 VARIABLES objs, n, memo, ok, objs0, hist
